@@ -24,8 +24,12 @@ class BoxUniform(distributions.Independent):
                                              reinterpret as event dims.
         """
 
+        # Argument validation is switched off so that, as documented above, points outside the
+        # box get log_prob = -inf instead of raising.
         super().__init__(
-            distributions.Uniform(low=low, high=high), reinterpreted_batch_ndims
+            distributions.Uniform(low=low, high=high, validate_args=False),
+            reinterpreted_batch_ndims,
+            validate_args=False,
         )
 
 
